@@ -89,3 +89,9 @@ func Families() []Named {
 		{"nonassoc-cmp", Parse("E", []string{"TA"}, "E: E '<' E | E '+' E | TA").WithPrec("nonassoc '<'", "left '+'")},
 	}
 }
+
+// Named2 is a named grammar text.
+type Named2 struct {
+	Name string
+	Text string
+}
